@@ -53,7 +53,8 @@ Sites(k) ==
      [] k = "responses" -> {[site |-> "headers", kind |-> "headers"], [site |-> "content.schema", kind |-> "schemas"],
                             [site |-> "links", kind |-> "links"], [site |-> "content.examples", kind |-> "examples"]}
      [] k = "callbacks" -> {[site |-> "post.requestBody", kind |-> "requestBodies"], [site |-> "post.responses", kind |-> "responses"],
-                            [site |-> "parameters", kind |-> "parameters"]}
+                            [site |-> "parameters", kind |-> "parameters"],
+                            [site |-> "post.callbacks", kind |-> "callbacks"]}     \* the operation of a callback declares callbacks again
      [] k = "pathItems" -> {[site |-> "parameters", kind |-> "parameters"], [site |-> "post.requestBody", kind |-> "requestBodies"],
                             [site |-> "post.responses", kind |-> "responses"]}
      [] OTHER -> {}
@@ -192,6 +193,17 @@ Shapes(k, st) ==
       : s \in {x \in Sites(k) : x.site \in {"properties", "items", "allOf"}}}
     ELSE {})
 
+(* reference cycles closed through a callback: its own operation declares the callback again *)
+CallbackCycles(st) ==
+   LET k == "callbacks" IN
+   {[shape |-> "selfcycle", site |-> "post.callbacks",
+     u |-> U(<<Slot(A1, k, "X", Conc("X", <<Ch("post.callbacks", k, R(A1, A1, k, "X", st))>>))>>, R(Root, A1, k, "X", st), k)],
+    [shape |-> "selfcycle_root", site |-> "post.callbacks",
+     u |-> U(<<Slot(Root, k, "X", Conc("X", <<Ch("post.callbacks", k, R(Root, Root, k, "X", st))>>))>>, R(Root, Root, k, "X", st), k)],
+    [shape |-> "mutualcycle", site |-> "post.callbacks",
+     u |-> U(<<Slot(A1, k, "X", Conc("X", <<Ch("post.callbacks", k, R(A1, B1, k, "Y", st))>>)),
+               Slot(B1, k, "Y", Conc("Y", <<Ch("post.callbacks", k, R(B1, A1, k, "X", st))>>))>>, R(Root, A1, k, "X", st), k)]}
+
 (* Path items: not a component kind (OpenAPI 3.0 has no components.pathItems) but referenceable:   *)
 (* a path of the root document is {"$ref": ...} to a whole file holding a bare path item or to      *)
 (* "#/paths/~1<name>" of another document.  Slot kind "pathItems", name = the path without "/".     *)
@@ -237,6 +249,7 @@ QuickSlice(sh, st, e, pos) ==
    \/ sh.shape = "otherhost_samepath"
    \/ (sh.shape \in {"collection", "collection_local"} /\ st = "plain" /\ e \in {"file_abs", "data"})
    \/ (pos = "op2" /\ st = "plain" /\ e = "file_abs")
+   \/ (sh.shape \in {"selfcycle", "selfcycle_root", "mutualcycle"} /\ sh.u.use.kind = "callbacks" /\ st = "plain" /\ e \in {"file_abs", "data"})
    \/ (sh.shape \in {"pathfragment", "pathfragment_ext"} /\ st = "plain" /\ e \in {"file_abs", "data"})
    \/ (sh.shape = "pi_local" /\ st = "plain" /\ e \in {"file_abs", "data"})
    \/ (sh.shape = "childdangling_whole" /\ st = "plain" /\ e \in {"file_abs", "file_rel"} /\ pos = "op")
@@ -255,7 +268,7 @@ VARIABLE case
 (* pos: where the root makes its reference: in an operation ("op"), as a component of its own ("comp"), or in TWO  *)
 (* operations at once ("op2": the same reference text twice; both must end up at the same object)                  *)
 Init == \E k \in Kinds \cup {PI}, st \in Styles, e \in Entries, pos \in {"op", "comp", "op2"}, al \in Allows :
-          \E sh \in (IF k = PI THEN PathItemShapes(st) ELSE Shapes(k, st)) :
+          \E sh \in (IF k = PI THEN PathItemShapes(st) ELSE Shapes(k, st) \cup (IF k = "callbacks" THEN CallbackCycles(st) ELSE {})) :
              /\ (k = PI => pos = "op")
              /\ (pos = "op2" => sh.shape \in {"direct", "chain3", "child", "childlocal", "wholefile", "selfcycle", "backref"} /\ e \in {"file_abs", "file_rel"})
              /\ (Tier = "quick" => QuickSlice(sh, st, e, pos))
